@@ -147,9 +147,10 @@ class SymChar(AV):
 class Inst(AV):
     """Instance of a class of the analysed package."""
 
-    __slots__ = ("cls", "attrs", "id", "seq", "depth", "label")
+    __slots__ = ("cls", "attrs", "id", "seq", "depth", "label", "constructed")
 
     def __init__(self, cls: Any, id: int, depth: int = 0, label: str = "") -> None:
+        self.constructed = False  # True once the class's own constructor has run on it (Interp.instantiate)
         self.cls = cls
         self.attrs: Dict[str, AV] = {}
         self.id = id
